@@ -323,7 +323,7 @@ def campaign_object_like(ck: Check, n: int) -> None:
         fn = realcall.resolve(ck, camp, p, "parse_object_like", "GraphQLParser.parse_object_like")
         if "T" in objs and fn is not None:
             before = len(p.results)
-            ok, _ = realcall.call(ck, camp, "GraphQLParser.parse_object_like(obj)", fn, objs["T"], _case=inp)
+            ok, _ = c17_fields.direct(ck, camp, "GraphQLParser.parse_object_like(obj)", fn, objs["T"], _case=inp)
             if ok:
                 camp.hit("direct_call")
                 got = None
